@@ -33,6 +33,24 @@ Definition rotate_keeps (stored : Z * Z) (now weekend : Z) : bool :=
   let s := counter_span now weekend in
   (fst s =? fst stored) && (snd s =? snd stored).
 
+(* rotate(): rotate1, then ONE timer armed for the recorded end, whose firing
+   runs rotate() again.  A rotating process's life is the list of clock
+   readings at which its armed timer fired; timer_chain lists the spans of the
+   files it counts into, in order. *)
+Fixpoint timer_chain (now weekend : Z) (fires : list Z) : list (Z * Z) :=
+  counter_span now weekend ::
+  match fires with [] => [] | t :: r => timer_chain t weekend r end.
+(* every timer fires at the recorded end of the file current then, or later
+   within that day *)
+Fixpoint fires_on_time (now weekend : Z) (fires : list Z) : Prop :=
+  match fires with
+  | [] => True
+  | t :: r => snd (counter_span now weekend) <= t < snd (counter_span now weekend) + 86400 /\
+              fires_on_time t weekend r
+  end.
+Fixpoint tiles (e : Z) (l : list (Z * Z)) : Prop :=
+  match l with [] => True | s :: r => fst s = e /\ snd s = e + 7 * 86400 /\ tiles (snd s) r end.
+
 (* uploader: start = (seconds, nanoseconds) *)
 Definition after_start (t : Z) (start : Z * Z) : bool :=  (* t.After(start) *)
   (fst start <? t).
